@@ -165,6 +165,22 @@ abs_forward_norm(const vp::ExplicitP& P, const std::vector<double>& x, const std
   return std::sqrt(s2);
 }
 
+//! max_b sum_i |P_bi| |x_i|: the magnitude the float accumulation of one bin works with; with mixed-sign images and few bins max|P x| can be
+//! far below it by cancellation, and the rounding error of the projector scales with this, not with the cancelled value
+double
+abs_forward_max(const vp::ExplicitP& P, const std::vector<double>& x)
+{
+  double m = 0;
+  for (std::size_t b = 0; b < P.rows.size(); ++b)
+    {
+      double acc = 0;
+      for (auto& e : P.rows[b])
+        acc += std::fabs(e.second) * std::fabs(x[std::size_t(e.first)]);
+      m = std::max(m, acc);
+    }
+  return m;
+}
+
 double
 max_abs(const std::vector<double>& v)
 {
@@ -293,7 +309,7 @@ check_explicit_and_linear(Ctx& X)
   X.fwd->forward_project(*pd, *imx);
   const std::vector<double> Ax = X.P.projdata_to_vec(*pd);
   const std::vector<double> ref = X.P.forward(x);
-  const double scale = std::max(max_abs(ref), 1e-30);
+  const double scale = std::max(std::max(max_abs(ref), abs_forward_max(X.P, x)), 1e-30);
   {
     std::size_t w = 0;
     const double d = max_diff(Ax, ref, &w);
@@ -548,7 +564,7 @@ check_smaller_data(Ctx& X)
   std::vector<double> x, yfull(X.P.bins.size(), 0.);
   auto imx = X.random_img(c["seed_x"].get<uint64_t>() + 53, x);
   const std::vector<double> Ax = X.P.forward(x);
-  const double scf = std::max(max_abs(Ax), 1e-30);
+  const double scf = std::max(std::max(max_abs(Ax), abs_forward_max(X.P, x)), 1e-30);
   // y on the smaller data (exact zeros included), its extension by zeros on the full data
   ProjDataInMemory y2(X.S.exam, p2);
   {
